@@ -3,6 +3,7 @@ real contract, messages it returned, ledgers of the chain simulation).  A failin
 concrete failing history: it is what a VIOLATION line points to.  Monitors mirror the Lean
 predicates of MW/Props/*.lean (same ghost bookkeeping as MW/Chain/Ghost.lean)."""
 from .cosim import STAKED
+from . import bech32
 
 E27 = 10 ** 27
 U128 = 2 ** 128 - 1
@@ -276,6 +277,17 @@ def m_ledgers(hist, rec):
             if got != minted or rcpts != {mt} or len(deliv_send) + len(deliv_ibc) != 1:
                 report(hist, "C03", "lst_delivery", {"variant": var, "branch": "native_recipient" if deliv_ibc else "protocol_recipient"},
                        "minted %d LST but delivered %d to %s" % (minted, got, sorted(rcpts)), rec)
+            # the chain of the delivery: bank transfer for a protocol-chain recipient, IBC transfer
+            # for a native-chain one; with equal prefixes the transfer_to_native_chain flag decides
+            hrp = bech32.decode_hrp(mt)
+            is_n = hrp == cfg(b)["native_chain_config"]["account_address_prefix"]
+            is_p = hrp == cfg(b)["protocol_chain_config"]["account_address_prefix"]
+            if is_n and is_p:
+                is_n = bool(c["msg"]["liquid_stake"].get("transfer_to_native_chain"))
+                is_p = not is_n
+            if (is_p and not deliv_send) or (is_n and not deliv_ibc) or not (is_n or is_p):
+                report(hist, "C03", "lst_delivery_chain", {"variant": var, "want": "protocol" if is_p else "native" if is_n else "none"},
+                       "recipient %s (native=%s protocol=%s) but delivery by %s" % (mt, is_n, is_p, "bank send" if deliv_send else "IBC transfer"), rec)
             # C04: floor formula on the implementation's own totals
             nn = 0 if (l0 == 0 and n0 != 0) else n0
             want = paid if nn == 0 else l0 * paid // nn
@@ -381,6 +393,22 @@ def m_ledgers(hist, rec):
         if own_d + g.swept != want_d:
             report(hist, "C02", "N2_solvency", {"eq": "N2"},
                    "contract holds %d staked asset (+swept %d), owes %d" % (own_d, g.swept, want_d), rec)
+        # F1: everything ever forwarded toward the staker is in flight to it, delivered to it, or
+        # refunded and still earmarked for it (C01 "located")
+        stakers = getattr(hist, "stakers", None)
+        if stakers is None:
+            stakers = hist.stakers = set()
+        stakers.add(cfg(a)["native_chain_config"]["staker_address"])
+        if cfg(b) is not None:
+            stakers.add(cfg(b)["native_chain_config"]["staker_address"])
+        located = sum(int(p["coin"]["amount"]) for p in a["ledger"]["pkts"]
+                      if p["sender"] == su.contract and p["coin"]["denom"] == D and p["state"] in ("pending", "delivered")
+                      and p["receiver"] in stakers)
+        located += sum(int(p["amount"]["amount"]) for p in inflight(a)
+                       if p["amount"]["denom"] == D and p["status"] in ("ack_failure", "timed_out") and p["receiver"] in stakers)
+        if located != g.fwd:
+            report(hist, "C01", "F1_located", {"eq": "F1"},
+                   "forwarded %d toward the staker, but only %d is in flight to it, delivered to it or earmarked for re-send to it" % (g.fwd, located), rec)
         # P2: packet coupling
         infl = {p["sequence"]: p for p in inflight(a)}
         for p in a["ledger"]["pkts"]:
@@ -471,8 +499,10 @@ def m_auth(hist, rec):
         report(hist, "C08", "admin_only", {"variant": "forced_recover"}, "forced recovery by non-admin", rec)
     if ok and var == "circuit_breaker" and c["sender"] != admin and c["sender"] not in cfg(b)["monitors"]:
         report(hist, "C08", "breaker_auth", {"variant": var}, "circuit breaker by %s" % c["sender"], rec)
-    if ok and var == "accept_ownership" and c["sender"] != b["contract"]["pending_owner"]:
-        report(hist, "C08", "accept_auth", {"variant": var}, "accept by non-nominee", rec)
+    nominated = getattr(hist, "last_nomination", None)      # by the history, not by the contract's own record
+    if ok and var == "accept_ownership" and (c["sender"] != b["contract"]["pending_owner"] or nominated is None or nominated[1] != c["sender"]):
+        report(hist, "C08", "accept_auth", {"variant": var},
+               "AcceptOwnership succeeded for %s; the standing nomination is %s" % (c["sender"], nominated[1] if nominated else "none (never made, revoked or consumed)"), rec)
     pc, nc = cfg(b)["protocol_chain_config"], cfg(b)["native_chain_config"]
     if ok and var == "receive_rewards" and c["sender"] != su.hook_staker(pc["ibc_channel_id"], nc["reward_collector_address"]):
         report(hist, "C08", "hook_auth", {"variant": var}, "rewards accepted from %s" % c["sender"], rec)
@@ -617,6 +647,15 @@ def wellformed_problems(c, chain_prefix):
     for k in ("staker_address", "reward_collector_address"):
         if not addr_ok(nc[k], nc["account_address_prefix"]):
             probs.append("%s %r not valid under the native prefix" % (k, nc[k]))
+    if pc.get("oracle_address") is not None and not addr_ok(pc["oracle_address"], pc["account_address_prefix"]):
+        probs.append("oracle address %r not valid under the protocol prefix" % pc["oracle_address"])
+    if fc.get("treasury_address") is not None and not addr_ok(fc["treasury_address"], pc["account_address_prefix"]):
+        probs.append("treasury address %r not valid under the protocol prefix" % fc["treasury_address"])
+    for a in c["monitors"]:
+        if not addr_ok(a, pc["account_address_prefix"]):
+            probs.append("monitor %r not valid under the protocol prefix" % a)
+    if len(set(c["monitors"])) != len(c["monitors"]):
+        probs.append("monitor listed twice")
     if not re.fullmatch(r"channel-[0-9]+", pc["ibc_channel_id"]):
         probs.append("channel id %r is not channel-<n>" % pc["ibc_channel_id"])
     d = pc["ibc_token_denom"]
@@ -652,6 +691,12 @@ def m_config(hist, rec):
         for pmsg in probs:
             if ("channel" in pmsg or "staked denom" in pmsg or "protocol account" in pmsg) and "protocol_chain_config" in supplied:
                 relevant.append(pmsg)
+            if "oracle" in pmsg and "protocol_chain_config" in supplied:
+                relevant.append(pmsg)
+            if "treasury" in pmsg and "protocol_fee_config" in supplied:
+                relevant.append(pmsg)
+            if "monitor" in pmsg and "monitors" in supplied:
+                relevant.append(pmsg)
             if ("validator" in pmsg or "staker" in pmsg or "reward" in pmsg or "native account" in pmsg or "token denom" in pmsg) and "native_chain_config" in supplied:
                 relevant.append(pmsg)
         _ = chk
@@ -684,9 +729,68 @@ def m_boot_config(hist):
         hist.findings.append({"property": "C14", "monitor": "wellformed", "signature": {"what": pmsg.split(" ")[0]},
                               "what": "configuration accepted at instantiation is malformed: " + pmsg,
                               "upto": len(hist.events), "event": hist.events[0]})
+    try:
+        from .implworld import decode_msg
+        from .procs import canon_msgs, outcome
+        mod = "/osmosis.tokenfactory.v1beta1." if hist.build == "osmosis" else "/miniwasm.tokenfactory.v1."
+        for call in hist.boot_tx["calls"]:
+            r = call["result"]
+            if outcome(r) != "ok" or call.get("entry") not in (None, "instantiate"):
+                continue
+            msgs = [decode_msg(m) for m in (r["ok"]["msgs"] if "msgs" in r["ok"] else canon_msgs(r["ok"]))]
+            tf = [m for m in msgs if m["k"] in ("mint", "burn", "create_denom")]
+            if not (len(tf) == 1 and tf[0]["k"] == "create_denom" and tf[0]["url"] == mod + "MsgCreateDenom"
+                    and tf[0]["sender"] == hist.su.contract and tf[0]["sub"] == hist.su.sub) or len(msgs) != 1:
+                hist.findings.append({"property": "C19", "monitor": "create_denom_message", "signature": {"build": hist.build},
+                                      "what": "instantiate does not emit exactly one %sMsgCreateDenom for %r by the contract: %s" % (mod, hist.su.sub, msgs),
+                                      "upto": len(hist.events), "event": hist.events[0]})
+    except (KeyError, TypeError):
+        pass
     if not c["stopped"]:
         hist.findings.append({"property": "C10", "monitor": "boot_halted", "signature": {}, "what": "new contract is not halted",
                               "upto": len(hist.events), "event": hist.events[0]})
 
 
-ALL = [m_flags, m_config, m_no_panic, m_oracle, m_ledgers, m_lifecycle, m_auth, m_recover, m_transfer_shape]
+def m_tokenfactory(hist, rec):
+    """C19: each stake mints and each submission burns exactly once, through the target chain's
+    token-factory module, with the contract as sender and holder, the factory denom and the exact amount"""
+    b, a = rec["before"], rec["after"]
+    if b is None or cfg(b) is None:
+        return
+    su = hist.su
+    mod = "/osmosis.tokenfactory.v1beta1." if hist.build == "osmosis" else "/miniwasm.tokenfactory.v1."
+    lst = "factory/%s/%s" % (su.contract, su.sub)
+    for c in rec["calls"]:
+        if c["outcome"] != "ok" or c.get("entry") != "execute":
+            continue
+        var = variant(c["msg"])
+        tf = [m for m in c["msgs"] if m["k"] in ("mint", "burn", "create_denom")]
+        sb, sa = state(b), state(a)
+        if var == "liquid_stake":
+            want = None
+            if sb is not None:
+                n0, l0 = int(sb["total_native_token"]), int(sb["total_liquid_stake_token"])
+                paid = int(c["funds"][0]["amount"]) if c["funds"] else 0
+                nn = 0 if (l0 == 0 and n0 != 0) else n0
+                want = paid if nn == 0 else l0 * paid // nn
+            good = (len(tf) == 1 and tf[0]["k"] == "mint" and tf[0]["url"] == mod + "MsgMint" and tf[0]["sender"] == su.contract
+                    and tf[0]["to"] == su.contract and tf[0]["coin"]["denom"] == lst
+                    and (want is None or tf[0]["coin"]["amount"] == want))
+            if good and rec["committed"] and sa is not None and sb is not None:
+                good = int(sa["total_liquid_stake_token"]) - int(sb["total_liquid_stake_token"]) == tf[0]["coin"]["amount"]
+            if not good:
+                report(hist, "C19", "mint_message", {"variant": var, "build": hist.build},
+                       "stake does not emit exactly one %sMsgMint of the exact amount (%s) by and to the contract: %s" % (mod, want, tf), rec)
+        elif var == "submit_batch":
+            pb = q(b, "pending")
+            T = int(pb["batch_total_liquid_stake"]) if pb else None
+            good = (len(tf) == 1 and tf[0]["k"] == "burn" and tf[0]["url"] == mod + "MsgBurn" and tf[0]["sender"] == su.contract
+                    and tf[0]["from"] == su.contract and tf[0]["coin"]["denom"] == lst and (T is None or tf[0]["coin"]["amount"] == T))
+            if not good:
+                report(hist, "C19", "burn_message", {"variant": var, "build": hist.build},
+                       "submission does not emit exactly one %sMsgBurn of the batch total (%s) by and from the contract: %s" % (mod, T, tf), rec)
+        elif tf:
+            report(hist, "C19", "stray_tokenfactory", {"variant": var, "build": hist.build}, "%s emits token-factory messages %s" % (var, tf), rec)
+
+
+ALL = [m_flags, m_tokenfactory, m_config, m_no_panic, m_oracle, m_ledgers, m_lifecycle, m_auth, m_recover, m_transfer_shape]
